@@ -77,6 +77,13 @@ static void future_cb(void **arg)
     __atomic_fetch_add(&c->cb_count, 1, __ATOMIC_SEQ_CST);
     for (int i = 0; i < c->ncomp; i++)
         c->cb_seen[i] = (uintptr_t)arg[i];
+    /* a callback that takes a while: nobody may see the future ready before
+     * it has finished */
+    if (c->epoch_salt & 1)
+        vrt_sleep_us(50 + (unsigned)(c->epoch_salt >> 8) % 400);
+    else
+        for (volatile unsigned i = 0; i < 200 + ((c->epoch_salt >> 8) & 0xfff); i++)
+            ;
     __atomic_store_n(&c->cb_done, 1, __ATOMIC_SEQ_CST);
     vrt_count(c_cb, 1);
 }
